@@ -156,6 +156,11 @@ def run(ck):
     # "regardless of file length": single lines far longer than any 16-bit counter -- a long data line, a long comment
     # before code, a long string, a file without any line break -- and a byte that is not UTF-8 beyond column 65536
     longs = []
+    # every character of the file reaches the assembler: control characters inside literals are data, not layout
+    longs.append(('@db "a\rb", 1\n', b"a\rb\x01", None))
+    longs.append(("@db '\r', '\t', 2\n", b"\r\t\x02", None))
+    longs.append(('@db "x\ty\x0bz\x0c", 3\r\n@db "\r"\r\n', b"x\ty\x0bz\x0c\x03\r", None))
+    longs.append((b"@db 1 ;\r comment with a CR in it\n@db 2\n@db \"\xc3\xa9\r\"\r\n\xff", None, (4, 1)))
     n = 24000
     longs.append(("@db " + ", ".join(str(k % 251) for k in range(n)) + "\n", bytes(k % 251 for k in range(n)), None))
     longs.append(("; " + "é" * 70000 + "\n@db 5\n", b"\x05", None))
@@ -202,6 +207,32 @@ def run(ck):
         if ar.ok or ar.crashed:
             ck.violation("read fault at offset %d of %s: run ended %s instead of a diagnostic" % (k, path, ar.canon()),
                          {"mode": "asm", "harness_case": c, "expected": "DIAG"})
+            break
+    # the same for every kind of error a read can report.  A persistent error must fail the run.  An error that happens
+    # once (the next read succeeds: an interrupted system call) may be retried or may fail the run -- but the run never
+    # succeeds on anything but the complete files
+    k_cases = []
+    for path, content in files0.items():
+        n = len(content.encode() if isinstance(content, str) else content)
+        for k in range(0, n + 1):
+            for kind in ("interrupted", "wouldblock", "timedout", "eof", "invalid"):
+                for once in (False, True):
+                    if kind == "interrupted" and not once and path.endswith(".bin"):
+                        continue        # std::io::Bytes retries an interrupted read for ever: a persistent EINTR is not a fault sequence the OS produces
+                    if (kind, once) not in (("interrupted", True), ("interrupted", False)) and rng.random() < 0.5:
+                        continue
+                    k_cases.append((path, k, kind, once, asm_case("z80", files=files0, opts="fault=%s:%d;faultkind=%s%s;chunks=%d,%d" % (
+                        path, k, kind, ";faultonce=1" if once else "", rng.randrange(1, 5), rng.randrange(1, 5)))))
+    k_impl = run_cases(harness, [c[4] for c in k_cases], case_timeout=20)
+    ck.evaluations += len(k_cases)
+    for (path, k, kind, once, c), r in zip(k_cases, k_impl):
+        ar = AsmResult(r)
+        ck.count("asm-fault-%s%s:%s" % (kind, "-once" if once else "", ar.kind))
+        bad = ar.crashed or (ar.ok and not once) or (ar.ok and once and ar.bytes != ok0.bytes)
+        if bad:
+            ck.violation("%s read error (%s) at offset %d of %s: run ended %s%s" % (kind, "once" if once else "persistent", k, path, ar.canon(),
+                         "" if not ar.ok else ", the fault-free output is %s" % ok0.canon()),
+                         {"mode": "asm", "harness_case": c, "expected": "DIAG" + (" or " + ok0.canon() if once else "")})
             break
     # a byte that is not UTF-8 (Latin-1 e-acute, a lone continuation byte, a truncated lead) at every offset of the
     # source files -- in code, strings and comments alike -- must fail the run
